@@ -199,7 +199,7 @@ pub fn finish(prop: &str, tier: Tier, seed: u64, spec: CheckSpec, parts: Vec<Par
             "engines": engines,
             "components": components(),
             "worker_processes": workers(),
-            "distinct_counting": "fingerprints are collected in 2^25-bit sketches per worker process and OR-ed; the reported numbers are set-bit counts, i.e. lower bounds of the number of distinct fingerprints",
+            "distinct_counting": "fingerprints are collected in fixed-size bit sketches (2^25 bits quick, 2^27 thorough) per worker process and OR-ed; the reported numbers are set-bit counts, i.e. lower bounds of the number of distinct fingerprints",
             "simulated_time": "gdsl has no clock; logical time is counted in calls / lock points / stream bytes (engines.*.stats.counters)",
         }),
         assumptions: spec.assumptions,
